@@ -20,6 +20,7 @@ let () =
     | "C12" -> C01.run_c12
     | "C20" -> C01.run_c20
     | "C19" -> C19.run_case
+    | "C06" -> C06.run_case
     | _ -> prerr_endline ("unknown property " ^ prop); exit 2 in
   List.iter
     (fun l ->
